@@ -21,7 +21,8 @@ META = {
              "index methods are snapshotted likewise. Non-trivial: a call with >=1 missing fact or weight row; distinct "
              "by content hash"),
     "require": {t: ["calls:calculate", "calls:shortcut", "calls:construct", "calls:walk", "calls:index_method",
-                    "cube:ccube", "cube:xcube", "perm:checked", "reuse_other_cube:checked", "class:garbage_under_false"]
+                    "cube:ccube", "cube:xcube", "perm:checked", "reuse_other_cube:checked", "class:garbage_under_false",
+                    "reuse_other_rowcount:checked"]
                 for t in ("quick", "thorough")},
     "assumptions": ["diagnostic counters (tracing dicts, intersection_data_points) are not part of the result and not compared"],
 }
@@ -201,12 +202,23 @@ def judge(ctx, case):
     # reuse the same aggregate objects on another cube and come back
     try_other = dense and all(not hasattr(f, "N") or True for f in funcs)
     if try_other:
-        other.calculate(funcs)
+        on_other = [freeze(r) for r in other.calculate(funcs)]
+        fresh_funcs = [make_func(kind, agg, inp, fn.return_missing_as)[0]
+                       for agg, inp, fn in zip(case["aggs"], case["inputs"], funcs)]
+        want_other = other.calculate(fresh_funcs)
+        if not all(same(a, b) for a, b in zip(on_other, want_other)):
+            ctx.violation("reused-object-differs-on-other-cube:%s" % feat,
+                          "aggregate objects already used on one cube give, on another cube, results different from fresh objects", case)
+            return
         back = cube.calculate(funcs)
-        ctx.count("calls:calculate", 2)
+        ctx.count("calls:calculate", 3)
         ctx.count("reuse_other_cube:checked")
         if not all(same(a, b) for a, b in zip(back, r_all)):
             ctx.violation("reuse-other-cube:%s" % feat, "after using the same aggregate objects on another cube the results on the first cube change", case)
+            return
+    if dense:
+        # aggregate functions that carry no row-aligned argument may be re-used on a cube with another row count
+        if not reuse_other_rowcount(ctx, case, kind, cls):
             return
     if not w.check("repeated / permuted / re-used calculate"):
         return
@@ -244,6 +256,46 @@ def judge(ctx, case):
     if ctx.evals % 53 == 1:
         ctx.sample({"kind": kind, "aggs": case["aggs"], "dense_shapes": [list(d.shape) for d in dense],
                     "first_fact": case["inputs"][0]["fact"]["values"], "first_fact_validity": case["inputs"][0]["fact"]["validity"]})
+
+
+def reuse_other_rowcount(ctx, case, kind, cls):
+    from catii import ffuncs, xfuncs
+
+    rng = numpy.random.default_rng(case["pseed"] + 5)
+    mod, pre = (ffuncs, "ffunc_") if kind == "ccube" else (xfuncs, "xfunc_")
+    shape = tuple(case["shape"])
+
+    def cube_of(n):
+        dense = []
+        for a in case["dense"]:
+            a = numpy.asarray(a)
+            rows = rng.integers(0, max(1, a.shape[0]), size=n)
+            dense.append(a[rows])
+        if kind == "ccube":
+            return cls([gen.dense_to_index(a, c) for a, c in zip(dense, case["commons"])], interacting_shape=shape)
+        return cls([a.copy() for a in dense], interacting_shape=shape)
+
+    n1 = case["n"]
+    n2 = n1 + int(rng.integers(1, 6))
+    c1, c2 = cube_of(n1), cube_of(n2)
+    for w in (None, float(gen.pick(rng, [0.5, 2.0]))):
+        for rma in (NaN, (0, False)):
+            f = getattr(mod, pre + "count")(w, None, bool(rng.random() < 0.5), rma)
+            g = getattr(mod, pre + "count")(w, None, f.ignore_missing, rma)
+            r1 = freeze(c1.calculate([f])[0])
+            r2 = c2.calculate([f])[0]
+            want2 = c2.calculate([g])[0]
+            ctx.count("calls:calculate", 3)
+            ctx.count("reuse_other_rowcount:checked")
+            if not same(r2, want2):
+                ctx.violation("reused-count-object-remembers-row-count:%s" % kind,
+                              "a count function first used on a cube of %d rows gives, on a cube of %d rows, a result different "
+                              "from a fresh function (weights=%r)" % (n1, n2, w), case)
+                return False
+            if not same(c1.calculate([f])[0], r1):
+                ctx.violation("reuse-other-cube:%s:count" % kind, "count results on the first cube change after use on another cube", case)
+                return False
+    return True
 
 
 def index_methods(ctx, case, dims, rng):
